@@ -45,6 +45,13 @@ Theorem C15_bootstrap_arguments :
    ("alternative", "self.alternative"); ("method", "self.method"); ("random_state", "self.random_state")]%string.
 Proof. reflexivity. Qed.
 
+(* the arrays handed to the statistic: the declared columns, looked up BY NAME, stacked in declared order *)
+Theorem C15_columns_selected_by_name_in_declared_order :
+  select_as_numpy =
+  ["if isinstance(columns, str):     return data[columns].combine_chunks().to_numpy(zero_copy_only=False)";
+   "return np.column_stack([data[col].combine_chunks().to_numpy(zero_copy_only=False) for col in columns])"]%string.
+Proof. reflexivity. Qed.
+
 Example C15_nonvacuous :
   read_granular ["x"%string] [(1%Z, fun _ => 5%Z); (0%Z, fun _ => 7%Z); (1%Z, fun _ => 9%Z)] <> [].
 Proof. discriminate. Qed.
@@ -57,3 +64,4 @@ Print Assumptions C15_undeclared_columns_hidden.
 Print Assumptions C15_shared_fetch_gives_same_values.
 Print Assumptions C15_bootstrap_result_fields.
 Print Assumptions C15_bootstrap_arguments.
+Print Assumptions C15_columns_selected_by_name_in_declared_order.
